@@ -104,6 +104,31 @@ pub(crate) fn no_literal(_d: &mut Decoder, _b: &mut Cursor<&mut BytesMut>, _i: b
     panic!("UNREACHABLE-STUB Decoder::decode_literal")
 }
 
+/// Environment stub for `bytes::BytesMut::split_to` (KIND_VEC -> shared promotion with
+/// pointer/integer tagging is intractable for CBMC): same contract - returns the first
+/// `at` bytes as an independent buffer and leaves the rest in `self` - implemented by
+/// copying.  `at` is concrete in every query that uses it.
+pub(crate) fn stub_split_to(this: &mut BytesMut, at: usize) -> BytesMut {
+    assert!(at <= this.len(), "split_to out of bounds");
+    let mut head = BytesMut::with_capacity(at + 8);
+    head.extend_from_slice(&this[..at]);
+    bytes::Buf::advance(this, at);
+    head
+}
+
+/// Restricted static table for the block harnesses: only the two entries the symbol
+/// alphabet uses (2 and 16); any other index panics (unreachability).  The full table
+/// is compared entry by entry with RFC 7541 Appendix A in `c11_static_table_*`.
+pub(crate) fn stub_get_static_pool(idx: usize) -> Header {
+    if idx == 2 {
+        Header::Method(http::Method::GET)
+    } else if idx == 16 {
+        Header::Field { name: http::header::ACCEPT_ENCODING, value: http::HeaderValue::from_static("gzip, deflate") }
+    } else {
+        panic!("UNREACHABLE-STUB get_static outside the index pool")
+    }
+}
+
 #[derive(Clone, Copy, PartialEq, Eq)]
 enum RefOut {
     Ok(u32, usize), // digest of the field list, final table max size
@@ -126,7 +151,8 @@ fn run_decoder(dec: &mut Decoder, buf: &mut BytesMut, digest: &mut u32) -> Resul
     })
 }
 
-fn block<const T0: u8, const T1: u8, const T2: u8>(check_split: bool) {
+fn block<const T0: u8, const T1: u8, const T2: u8, const K: usize>() {
+    let check_split = K != 99;
     let tags = [T0, T1, T2];
     let limit: usize = 4096;
     // serialise + reference decode (RFC 7541 §3.2, §4.2, §6.1, §6.3) in one pass
@@ -143,12 +169,12 @@ fn block<const T0: u8, const T1: u8, const T2: u8>(check_split: bool) {
         else if t == 5 { bytes[n] = 0xbe; n += 1; }
         else if t == 6 { bytes[n] = 0x90; n += 1; }
         else if t == 3 {
-            let v: u8 = kani::any();
+            // masked so that the representation bits stay syntactically constant
+            let v: u8 = kani::any::<u8>() & 0x1f;
             kani::assume(v <= 30);
             bytes[n] = 0x20 | v; n += 1; val = v as usize;
         } else if t == 4 {
-            let v: u8 = kani::any();
-            kani::assume(v < 128);
+            let v: u8 = kani::any::<u8>() & 0x7f;
             bytes[n] = 0x3f; bytes[n + 1] = v; n += 2; val = 31 + v as usize;
         }
         if let RefOut::Ok(d, sz) = want {
@@ -165,25 +191,46 @@ fn block<const T0: u8, const T1: u8, const T2: u8>(check_split: bool) {
         }
         i += 1;
     }
-    // --- whole
-    let mut dec1 = Decoder::new(limit);
-    let mut b1 = BytesMut::with_capacity(16);
-    b1.extend_from_slice(&bytes[..n]);
-    let mut d1 = 0u32;
-    let r1 = run_decoder(&mut dec1, &mut b1, &mut d1);
-    let got1 = match r1 {
-        Ok(()) => RefOut::Ok(d1, dec1.table.max_size),
-        Err(DecoderError::InvalidTableIndex) => RefOut::Err(1),
-        Err(DecoderError::InvalidMaxDynamicSize) => RefOut::Err(2),
-        Err(_) => RefOut::Err(99),
-    };
-    assert!(got1 == want, "C11.block: whole-block decoding differs from RFC 7541");
-    assert!(dec1.table.size <= dec1.table.max_size, "dynamic table above its limit");
-    if check_split {
-        // --- split at an arbitrary byte offset, resuming as HeaderBlock::load does:
-        // the undecoded tail stays in the buffer and the next fragment is appended
-        let k: usize = kani::any();
-        kani::assume(k <= n);
+    if !check_split {
+        // --- whole
+        let mut dec1 = Decoder::new(limit);
+        let mut b1 = BytesMut::with_capacity(16);
+        b1.extend_from_slice(&bytes[..n]);
+        let mut d1 = 0u32;
+        let r1 = run_decoder(&mut dec1, &mut b1, &mut d1);
+        let got1 = match r1 {
+            Ok(()) => RefOut::Ok(d1, dec1.table.max_size),
+            Err(DecoderError::InvalidTableIndex) => RefOut::Err(1),
+            Err(DecoderError::InvalidMaxDynamicSize) => RefOut::Err(2),
+            Err(_) => RefOut::Err(99),
+        };
+        assert!(got1 == want, "C11.block: whole-block decoding differs from RFC 7541");
+        assert!(dec1.table.size <= dec1.table.max_size, "dynamic table above its limit");
+        std::mem::forget(dec1);
+        std::mem::forget(b1);
+    } else {
+        // --- split at byte offset K, resuming as HeaderBlock::load does: the undecoded
+        // tail is carried over and the next fragment appended.  (The carried tail is
+        // copied into a fresh buffer: appending to a buffer that was advanced is the
+        // same operation for `BytesMut` but did not finish symbolically.)  The split
+        // offset is concrete per query; all offsets 0..=len are separate queries.
+        let k: usize = K;
+        assert!(k <= n);
+        // start offset of the symbol containing byte k (k itself when on a boundary)
+        let mut carry_from = 0usize;
+        {
+            let mut pos = 0usize;
+            let mut i = 0;
+            while i < 3 {
+                let len = if tags[i] == 4 { 2 } else if tags[i] == 0 { 0 } else { 1 };
+                if pos + len <= k {
+                    carry_from = pos + len;
+                }
+                pos += len;
+                i += 1;
+            }
+            if carry_from > k { carry_from = k; }
+        }
         let mut dec2 = Decoder::new(limit);
         let mut b2 = BytesMut::with_capacity(16);
         b2.extend_from_slice(&bytes[..k]);
@@ -191,8 +238,22 @@ fn block<const T0: u8, const T1: u8, const T2: u8>(check_split: bool) {
         let ra = run_decoder(&mut dec2, &mut b2, &mut d2);
         let rb = match ra {
             Ok(()) | Err(DecoderError::NeedMore(_)) => {
-                b2.extend_from_slice(&bytes[k..n]);
-                run_decoder(&mut dec2, &mut b2, &mut d2)
+                // what the decoder left undecoded must be exactly the bytes of the symbol
+                // that the split cut through (`carry_from` = start of that symbol)
+                assert!(b2.len() == k - carry_from, "C11.split: wrong number of bytes carried over after a shortfall");
+                let mut j = 0;
+                while j < b2.len() {
+                    assert!(b2[j] == bytes[carry_from + j], "C11.split: carried bytes differ from the input");
+                    j += 1;
+                }
+                // continuation buffer = carried tail + next fragment, taken from the input
+                // array (equal to the carried buffer by the assertions above; copying
+                // heap-to-heap makes the second call's input opaque to CBMC)
+                let mut b3 = BytesMut::with_capacity(16);
+                b3.extend_from_slice(&bytes[carry_from..n]);
+                let r = run_decoder(&mut dec2, &mut b3, &mut d2);
+                std::mem::forget(b3);
+                r
             }
             Err(e) => Err(e),
         };
@@ -202,14 +263,12 @@ fn block<const T0: u8, const T1: u8, const T2: u8>(check_split: bool) {
             Err(DecoderError::InvalidMaxDynamicSize) => RefOut::Err(2),
             Err(_) => RefOut::Err(99),
         };
-        assert!(got2 == want, "C11.split: feeding the block in two pieces differs from feeding it whole");
-        kani::cover!(k > 0 && k < n, "split_inside");
+        assert!(got2 == want, "C11.split: feeding the block in two pieces differs from RFC 7541 / from feeding it whole");
+        assert!(dec2.table.size <= dec2.table.max_size, "dynamic table above its limit");
         std::mem::forget(dec2);
         std::mem::forget(b2);
     }
     kani::cover!(true, "end");
-    std::mem::forget(dec1);
-    std::mem::forget(b1);
 }
 // generated wrappers: see tools/gen_block_obligations.py
 include!(concat!(env!("H2_VERIF_DIR"), "/harness/hpack/decoder_block_wrappers.rs"));
